@@ -292,6 +292,9 @@ PINS = [
     ("pinFixMuxWidths", "Check", "src/ast.rs", "pub fn fix_mux_widths<'a>("),
     ("pinEvaluate", "Check", "src/ast.rs", "pub fn evaluate<'a>("),
     ("pinMainReal", "Main", "src/main.rs", "fn main_real()"),
+    ("pinFormatForContents", "Errors", "src/errors.rs", "pub fn format_for_contents<W: Write>"),
+    ("pinFormatTokenList", "Errors", "src/errors.rs", "fn format_token_list(tokens"),
+    ("pinListWithAnd", "Errors", "src/errors.rs", "fn list_with_and<"),
 ]
 
 
